@@ -126,13 +126,20 @@ DistSetWithdrawAddr(s, from, addr) ==
 
 -----------------------------------------------------------------------------
 \* environment events (not transactions of the contracts)
+\* E2 (DESIGN.md section 4): matured unbonding entries are paid before the transactions of the first block whose time
+\* is >= their completion time.  PayLag (switched on only by the exploration configuration "E2-paylag", through a
+\* definition override PayLag <- PayLagOn) models the SDK's real behaviour instead: entries are paid by the end-blocker,
+\* so the transactions of a block see only what had matured by the *previous* block's time.
+PayLag   == FALSE
+PayLagOn == TRUE
 EnvAdvance(w, dt) ==
   LET t   == w.now + dt
-      due == {i \in 1..Len(w.unbq) : w.unbq[i].at <= t}
+      lim == IF PayLag THEN w.now ELSE t
+      due == {i \in 1..Len(w.unbq) : w.unbq[i].at <= lim}
       amt == SumFn([i \in due |-> w.unbq[i].amt], due)
   IN [w EXCEPT !.now = t, !.height = @ + 1,
                !.bank["hub"]["usei"] = @ + amt,
-               !.unbq = SelectSeq(w.unbq, LAMBDA e : e.at > t)]
+               !.unbq = SelectSeq(w.unbq, LAMBDA e : e.at > lim)]
 
 \* slash validator v's bonded stake by 1/k (slashed amount floored); never to zero
 EnvSlashBondedOk(w, v, k) == w.deleg[v] \div k > 0 /\ w.deleg[v] - (w.deleg[v] \div k) > 0
